@@ -109,3 +109,47 @@ def est_calls(n, out_n, c):
             return len(p)
         return len(p) + total // max(1, last)
     return per(c["src"], n) + per(c["dst"], out_n)
+
+
+# ------------------------------------------------------------------ known findings (std/lzma family)
+LZMA_FAMILY = ("lzma", "xz", "lzip")
+
+
+def avoid_known(dec, path, fields):
+    """Keep random schedules away from the EXACT constructs of the known std/lzma-family findings (each is
+    re-run as a witness by the checks that own it, see KNOWN_WITNESSES), and from a schedule under which these
+    decoders cannot progress by design."""
+    f = dict(fields)
+    if dec in LZMA_FAMILY:
+        # known: lzma-undrained-dst-after-compacted-history (compacted destination + a call entered with undrained output)
+        if f.get("dstmode") == "compact":
+            f["dstmode"] = "grow"
+        # these decoders want >= 274 bytes of room at once: a destination that only ever offers less never progresses
+        d = str(f.get("dst", "*"))
+        if not d.endswith("*"):
+            try:
+                if min(int(x) for x in d.split(",") if x != "*") < 4096:
+                    f["dst"] = "4096"
+            except ValueError:
+                pass
+    name = os.path.basename(path)
+    if dec == "xz" and "xz-filter" in name and "delta" not in name:
+        # known: xz-bcj-filter-resumed-after-suspension (any resumption inside a BCJ-filtered block)
+        f["src"] = "*"
+        f["dst"] = "*"
+        f.pop("dstmode", None)
+    return f
+
+
+def known_witnesses():
+    """[(key, job fields, oracle path or None)] - the committed witnesses of the std findings that the split/
+    contract checks re-run on every run."""
+    td = os.path.join(REPO, "test", "data")
+    w = []
+    if os.path.exists(os.path.join(td, "enwik5.xz")):
+        w.append(("lzma-undrained-dst-after-compacted-history",
+                  {"dec": "xz", "in": os.path.join(td, "enwik5.xz"), "src": "4096", "dst": "4096", "dstmode": "compact"}, os.path.join(td, "enwik5")))
+    p = os.path.join(td, "artificial-xz-filter", "xz-filter-07-9a3fb8ae-arm_start_1000.dat.xz")
+    if os.path.exists(p):
+        w.append(("xz-bcj-filter-resumed-after-suspension", {"dec": "xz", "in": p, "src": "100"}, p[:-3]))
+    return w
